@@ -590,11 +590,12 @@ def relations(f, pos, render=None):
     return out
 
 
-def walk_vals(f, start_block, val, limit=400, stop_at_loop_back=False, assume=None, stop_at=None):
+def walk_vals(f, start_block, val, limit=400, stop_at_loop_back=False, assume=None, stop_at=None, seq=None):
     """like walk(), but every assignment / compound assignment / initialisation of a local whose value is determined is recorded, and
     the final valuation is returned as third result.  `assume(key)` may supply a value for an undetermined branch condition."""
     val = dict(val)
     oracle = dict(val)       # a supplied value of a variable stands for the outcome of its undetermined definition (`sent = send(..)`)
+    seq_count = {}
     seen_all = []
     b = start_block
     back = set(f.dom().get(start_block, set())) - {start_block} if stop_at_loop_back else set()
@@ -612,6 +613,13 @@ def walk_vals(f, start_block, val, limit=400, stop_at_loop_back=False, assume=No
                 return seen_all, "stop", val
             seen_all.append(e)
             ne = f.nodes[e]
+            if seq and ne["k"] in ("CallExpr", "CXXMemberCallExpr"):
+                # successive evaluations of one call site yield the successive outcomes of `seq[key]` (the last one repeats)
+                ks_ = key(f, e)
+                if ks_ in seq:
+                    n_ = seq_count.get(ks_, 0)
+                    val[ks_] = oracle[ks_] = seq[ks_][min(n_, len(seq[ks_]) - 1)]
+                    seq_count[ks_] = n_ + 1
             if ne["k"] == "ReturnStmt":
                 return seen_all, e, val
             if ne["k"] in ("BinaryOperator", "CompoundAssignOperator") and ne.get("op") in ("=",) + tuple(OPS) and ne["c"]:
